@@ -3,6 +3,7 @@ package pppoe
 import (
 	"crypto/rand"
 	"encoding/hex"
+	"errors"
 	"fmt"
 	"net"
 	"sync"
@@ -185,6 +186,12 @@ func (s *Session) NextLCPIdentifier() uint8 {
 	return s.LCPIdentifier
 }
 
+// maxSessionID is the largest PPPoE session ID; 0 is reserved (RFC 2516).
+const maxSessionID = 0xFFFF
+
+// ErrNoFreeSessionID is returned by CreateSession when all 65535 session IDs are in use.
+var ErrNoFreeSessionID = errors.New("no free PPPoE session ID")
+
 // SessionManager manages PPPoE sessions
 type SessionManager struct {
 	sessions     map[uint16]*Session
@@ -207,15 +214,21 @@ func (m *SessionManager) CreateSession(clientMAC, serverMAC net.HardwareAddr) (*
 	m.mu.Lock()
 	defer m.mu.Unlock()
 
-	// Find next available session ID
-	for {
+	// Find next available session ID. Session ID 0 is reserved (RFC 2516), so
+	// there are 65535 usable IDs; probe each of them at most once.
+	found := false
+	for probes := 0; probes < maxSessionID; probes++ {
+		if m.nextID == 0 {
+			m.nextID = 1 // Skip 0 (also after the counter wrapped)
+		}
 		if _, exists := m.sessions[m.nextID]; !exists {
+			found = true
 			break
 		}
 		m.nextID++
-		if m.nextID == 0 {
-			m.nextID = 1 // Skip 0
-		}
+	}
+	if !found {
+		return nil, ErrNoFreeSessionID
 	}
 
 	session, err := NewSession(m.nextID, clientMAC, serverMAC)
@@ -223,6 +236,8 @@ func (m *SessionManager) CreateSession(clientMAC, serverMAC net.HardwareAddr) (*
 		return nil, err
 	}
 	m.sessions[m.nextID] = session
+	// A client may open several sessions (RFC 2516); the MAC index refers to
+	// the most recently created one.
 	m.macToSession[clientMAC.String()] = m.nextID
 	m.nextID++
 
@@ -252,8 +267,17 @@ func (m *SessionManager) RemoveSession(id uint16) {
 	defer m.mu.Unlock()
 
 	if session, ok := m.sessions[id]; ok {
-		delete(m.macToSession, session.ClientMAC.String())
+		m.unindexLocked(session.ClientMAC.String(), id)
 		delete(m.sessions, id)
+	}
+}
+
+// unindexLocked drops the MAC index entry of a session that is being removed,
+// unless the entry already refers to a newer session of the same client.
+// The caller holds m.mu.
+func (m *SessionManager) unindexLocked(mac string, id uint16) {
+	if indexed, ok := m.macToSession[mac]; ok && indexed == id {
+		delete(m.macToSession, mac)
 	}
 }
 
@@ -290,7 +314,7 @@ func (m *SessionManager) CleanupExpired(timeout time.Duration) int {
 		session.mu.RUnlock()
 
 		if inactive {
-			delete(m.macToSession, session.ClientMAC.String())
+			m.unindexLocked(session.ClientMAC.String(), id)
 			delete(m.sessions, id)
 			removed++
 		}
